@@ -301,17 +301,17 @@ def c09(tier, seed):
 def vector_jobs(tier):
     X = tier == "thorough"
     jobs = []
-    sizes = [1, 2, 3, 4, 7, 8, 16, 64] if X else [1, 3, 8]
+    sizes = [1, 2, 3, 4, 7, 8, 16, 64] if X else [1, 3, 8, 16]
     for cap in range(4):
         for osz in sizes:
             for pol in range(3):
-                jobs.append(Job("vector-c%d-s%d-p%d" % (cap, osz, pol), ["seqmc/vector.c"], [cap, osz, pol, 4 if X else 3], wraps=VA_WRAPS, weight=4 if X else 1))
+                jobs.append(Job("vector-c%d-s%d-p%d" % (cap, osz, pol), ["seqmc/vector.c"], [cap, osz, pol, 5 if X else 4], wraps=VA_WRAPS, weight=8 if X else 2))
     return jobs
 
 
 @prop("C10", "model_checking",
-      "for initial capacity 0..3 x element size {1,3,8} (thorough {1,2,3,4,7,8,16,64}) x growth policy exact/linear/double: "
-      "BFS closure of every vector state of <= 3 (4) elements over 3 element values (one all-zero): addfirst/addlast, "
+      "for initial capacity 0..3 x element size {1,3,8,16} (thorough {1,2,3,4,7,8,16,64}) x growth policy exact/linear/double: "
+      "BFS closure of every vector state of <= 4 (thorough 5) elements over 3 element values (one all-zero): addfirst/addlast, "
       "addat/setat/popat/removeat for every index in [-n-2, n+2] and the first/last variants, reverse, resize(0..n+2), clear; "
       "after every transition getat of every index (both newmem), getfirst/getlast, size, toarray, getnext walks, "
       "capacity >= count, errno of refusals, 'refused => unchanged'. Canonical state = (capacity, contents)",
